@@ -55,6 +55,19 @@ def run(ctx: Ctx):
     from ladim.ROMS import s_stretch, sdepth, z2s
     r = ctx.rng
     ps = param_sets(ctx)
+    # ---------------- the Grid object's own level arrays (from the file, from Vinfo, on subgrids)
+    from harness.common import pmap
+    jobs = []
+    for k in range(240 if ctx.thorough else 48):
+        vs = [1, 2, 4][k % 3]
+        jobs.append(dict(seed=ctx.seed * 1000 + k, N=[2, 3, 8, 20, 35][k % 5], theta_s=[0.5, 3.0, 7.0, 10.0][k % 4],
+                         theta_b=([0.0, 0.4, 1.0] if vs == 1 else [0.1, 0.9, 3.0])[k % 3], vs=vs, vt=[1, 2][(k // 3) % 2],
+                         hc=[0.0, 5.0, 20.0][(k // 2) % 3] if (k // 3) % 2 else [0.0, 2.0][(k // 2) % 2], hmin=[25.0, 200.0][k % 2],
+                         vinfo=bool((k // 6) % 2), sub=bool((k // 12) % 2)))
+    for job, g in zip(jobs, pmap(grid_levels, jobs, warm=False)):
+        ctx.case("grid-levels", [job[k_] for k_ in sorted(job)], sample=dict(job=job), nontrivial=True)
+        ctx.count("grid:" + ("Vinfo" if job["vinfo"] else "file") + (":subgrid" if job["sub"] else ""))
+        check_grid_levels(ctx, job, g)
     # ---------------- s_stretch vs the Float instance of the generic formulas
     reqs = []
     for p in ps:
@@ -167,6 +180,61 @@ def run(ctx: Ctx):
                 ctx.violation("tie-broken", "z2s", dict(case, depth=z, z_r=[float(x) for x in zr]),
                               dict(implementation=[K, A], model=[mk, ma], correspondence="z2s_kernel vs Ladim.z2sCol"))
                 break
+
+
+def grid_levels(job):
+    """Grid.z_r / z_w / Cs_r / Cs_w of a real Grid built from a file or from Vinfo (whole grid or subgrid)."""
+    use_repo()
+    from harness import lab
+    from ladim.ROMS import Grid, s_stretch
+    r = np.random.RandomState(job["seed"])
+    N = job["N"]
+    imax, jmax = 8, 7
+    h = r.uniform(job["hmin"], job["hmin"] * 4, size=(jmax, imax))
+    cr = s_stretch(N, job["theta_s"], job["theta_b"], stagger="rho", Vstretching=job["vs"])
+    cw = s_stretch(N, job["theta_s"], job["theta_b"], stagger="w", Vstretching=job["vs"])
+    with lab.scratch() as d:
+        lab.make_grid_forcing(d / "g.nc", [0], imax=imax, jmax=jmax, N=N, h=h, hc=job["hc"], Cs_r=cr, Cs_w=cw, vtransform=job["vt"])
+        kw = dict(filename=d / "g.nc")
+        if job["sub"]:
+            kw["subgrid"] = [2, 7, 1, 6]
+        if job["vinfo"]:
+            kw["Vinfo"] = dict(N=N, hc=job["hc"], theta_s=job["theta_s"], theta_b=job["theta_b"], Vstretching=job["vs"], Vtransform=job["vt"])
+        try:
+            g = Grid(**kw)
+        except BaseException as e:  # noqa: BLE001
+            return dict(error=type(e).__name__ + ": " + str(e)[:80])
+        H = np.asarray(g.H)
+        return dict(z_r=np.asarray(g.z_r).tolist(), z_w=np.asarray(g.z_w).tolist(), H=H.tolist(), Cs_r=[float(x) for x in g.Cs_r],
+                    Cs_w=[float(x) for x in g.Cs_w], cr=[float(x) for x in cr], cw=[float(x) for x in cw])
+
+
+def check_grid_levels(ctx, job, g):
+    case = {k: v for k, v in job.items()}
+    if "error" in g:
+        ctx.violation("failing-input", "grid-levels", case, dict(implementation=g["error"]), tags=dict(first="raised"))
+        return
+    bad = []
+    zr, zw, H = np.array(g["z_r"]), np.array(g["z_w"]), np.array(g["H"])
+    eps = 1e-9 * H
+    if len(g["Cs_r"]) != job["N"] or len(g["Cs_w"]) != job["N"] + 1:
+        bad.append("wrong number of levels")
+    else:
+        if any(abs(a - b) > 1e-12 for a, b in zip(g["Cs_r"], g["cr"])) or any(abs(a - b) > 1e-12 for a, b in zip(g["Cs_w"], g["cw"])):
+            bad.append("the grid's stretching arrays are not those of the configured Vstretching")
+        if not all(g["Cs_w"][k] < g["Cs_r"][k] < g["Cs_w"][k + 1] for k in range(job["N"])):
+            bad.append("rho- and w-stretching curves do not interleave")
+        if (np.diff(zr, axis=0) <= 0).any() or (np.diff(zw, axis=0) <= 0).any():
+            bad.append("levels not strictly increasing bottom to surface")
+        if (zr[0] < -H - eps).any() or (zr[-1] > eps).any():
+            bad.append("rho-level outside [-h, 0]")
+        if (np.abs(zw[0] + H) > eps).any() or (np.abs(zw[-1]) > eps).any():
+            bad.append("w-levels do not run from -h to 0")
+        if not ((zw[:-1] < zr).all() and (zr < zw[1:]).all()):
+            bad.append("rho- and w-levels do not interleave")
+    if bad:
+        ctx.violation("failing-input", "grid-levels", case, dict(broken=bad, theorem="Ladim.C12.curves_ordered / sdepth_mono / sdepth_range"),
+                      tags=dict(first="grid-levels", vinfo=job["vinfo"], vs=job["vs"]))
 
 
 def meta_sample(meta, ctx):
